@@ -1332,10 +1332,8 @@ def ntdll_RtlCompareMemory(jitter):
     data2 = jitter.vm.get_mem(args.ad2, args.m_len)
 
     i = 0
-    while data1[i] == data2[i]:
+    while i < args.m_len and data1[i] == data2[i]:
         i += 1
-        if i >= args.m_len:
-            break
 
     jitter.func_ret_stdcall(ret_ad, i)
 
